@@ -300,7 +300,7 @@ trait Encode {
 //@   spec
 //|         requires old(self).inv(), struct_req(*strukt),
 //|         ensures r is Ok ==> final(self).inv() && final(self).recs() == old(self).recs() + struct_c(*strukt),
-//@   before /Write each of our elements/
+//@   before1 /Write each of our elements|for elem in strukt\.elems\.iter\(\)/
 //|         let ghost pre = self.recs();
 //|         proof {
 //|             assert(Seq::new(12, |i: int| dates@[i] as int) =~= dates12(strukt.dates));
@@ -320,7 +320,7 @@ trait Encode {
 //@   spec
 //|         requires old(self).inv(), lib_req(*lib),
 //|         ensures r is Ok ==> final(self).inv() && final(self).recs() == old(self).recs() + lib_c(*lib),
-//@   before /Write all of our Structs/
+//@   before1 /Write all of our Structs|for strukt in lib\.structs\.iter\(\)/
 //|         let ghost pre = self.recs();
 //|         proof {
 //|             assert(Seq::new(12, |i: int| dates@[i] as int) =~= dates12(lib.dates));
